@@ -279,6 +279,32 @@ def check_core(rep, prog):
     ok = ok and not after
     core(rep, 'uref_free:ubuf-udict-then-structure', ok, fn.loc,
          **({} if ok else {'what': 'uref_free must release ubuf and udict before mgr->uref_free and not touch the uref afterwards'}))
+    # a structure taken from the manager (possibly recycled from a pool) has its
+    # ubuf and udict defined before anything can free it - allocation-failure paths included:
+    # uref_free() would release whatever the recycled structure still points at
+    nfresh = 0
+    for fname, fn in sorted(H.funcs.items()):
+        if not (fn.file or '').endswith('upipe/uref.h') or not fn.blocks:
+            continue
+        ev = pr.Events(fn)
+        if not ev.find(pr.m_indirect(r'.*->uref_alloc')):
+            continue
+        nfresh += 1
+        frees = ev.find(pr.m_call('uref_free'))
+        init = pr.m_call('uref_init')
+        ok = True
+        for fld in ('ubuf', 'udict'):
+            st = pr.m_any(pr.m_store(('uref', fld)), init)
+            if frees and pr.must_precede(ev, st, pr.m_call('uref_free')):
+                ok = False
+            # and before the structure is returned
+            if pr.must_precede(ev, st, lambda n: n.get('k') == 'return' and isinstance(n.get('e'), dict) and const_of(n['e']) is None):
+                ok = False
+        core(rep, '%s:fresh-uref-initialised-before-free-or-return' % fname, ok, fn.loc,
+             **({} if ok else {'what': 'a path frees or returns the uref obtained from mgr->uref_alloc before its ubuf and udict fields are both written: '
+                                'a recycled structure still designates the buffer of its previous life, which uref_free() releases a second time'}))
+    if nfresh < 2:
+        raise facts.AnalysisBroken('fresh-uref rule found %d allocation sites in uref.h' % nfresh)
     # upump_common_dispatch / clean
     U = prog.units.get('lib/upipe/upump_common.c')
     if U is None:
@@ -349,6 +375,23 @@ def check_core(rep, prog):
                 ok = ok and bool(ev.find(dele)) and not pr.must_follow(ev, dele, pr.m_any(pr.m_call('uref_free'), dele)) and bool(ev.find(pr.m_call('uref_free')))
                 core(rep, '%s:frees-held-and-unblocks' % fn.name, ok, fn.loc,
                      **({} if ok else {'what': 'clean_input must reset NB_UREFS to 0 before calling unblock_input (else the blockers survive the pipe) and free every held uref'}))
+            elif fn.macro == 'UPIPE_HELPER_SUBPIPE' and '_throw_sub_' in fn.name:
+                # the handler of the event may release subpipes: the one being served is kept alive by a
+                # reference, and the successor is read from it *after* the throw and before that reference is dropped
+                ev = pr.Events(fn)
+                thr = pr.m_call(r'upipe_throw(_va)?')
+                use = pr.m_call('upipe_use')
+                rel = pr.m_call('upipe_release')
+                nxt = pr.m_load(('uchain', 'next'))
+                ok = bool(ev.find(thr)) and not pr.must_precede(ev, use, thr)
+                bad = []
+                for pos in ev.find(thr):
+                    hits, _ = ev.reach((pos[0], pos[1]), rel, nxt)
+                    bad += hits
+                ok = ok and bool(ev.find(rel)) and not bad
+                core(rep, '%s:successor-read-after-throw-under-reference' % fn.name, ok, fn.loc,
+                     **({} if ok else {'what': 'after throwing on a subpipe the loop drops its reference without having re-read uchain->next: the successor '
+                                        'was cached before the throw, and a handler that releases that successor leaves the loop with a freed pipe'}))
             elif fn.macro == 'UPIPE_HELPER_UREF_STREAM' and fn.name.endswith('_clean_uref_stream'):
                 ev = pr.Events(fn)
                 ok = bool(ev.find(pr.m_call('uref_free')))
@@ -371,6 +414,10 @@ def run(tier='quick', repo=None):
     check_pair(rep, prog)
     check_dangle(rep, prog)
     check_core(rep, prog)
+    from upv import provide
+    nprov = provide.run(rep, prog)
+    if nprov < 30:
+        raise facts.AnalysisBroken('R-provide found only %d provider call-backs' % nprov)
     # the tail hint of segmented blocks never keeps pointing at freed segments
     # (path rule shared with C03 R-cache-end: a dangling cached_end_ubuf is a use after free on the next append)
     from rules import c03
